@@ -83,6 +83,11 @@ class JitCore_Python(jitcore.JitCore):
             # Refresh CPU values according to @cpu instance
             exec_engine.update_engine_from_cpu()
 
+            if has_delayslot:
+                # The pending branch flag is local to a block (as in the C
+                # backends): a branch taken in a previous block is over
+                exec_engine.symbols[codegen.delay_slot_set] = ExprInt(0, 32)
+
             # Get initial loc_key
             cur_loc_key = asmblock.loc_key
 
